@@ -21,8 +21,8 @@
 /* C09: the configured limit */
 #ifdef WITH_LIMIT
 #define LIMITCHECK() do { \
-    CHECK(post.L <= LIMIT || st_equal(&pre, &post), "the href never exceeds the configured maximum length (or the URL is unchanged)"); \
-    if (post.L > LIMIT || (pre.L <= LIMIT && !st_equal(&pre, &post) && 0)) {} \
+    CHECK(post.L <= LIMIT, "no setter leaves an href longer than the configured maximum length"); \
+    if (LIMIT < 15) REACH("a small limit is in force"); \
   } while (0)
 #else
 #define LIMITCHECK() do {} while (0)
